@@ -150,7 +150,9 @@ def programs(tier: str) -> list[dict]:
                   "calls": [{"op": "sin", "a": 1}, {"op": "sum", "a": 2, "axis": 1},
                             {"op": "mul", "a": 2, "b": {"py": "float", "v": "2.0"}}],
                   "outs": {"out0": 2, "out1": 3, "out2": 4}, "nvar": 5})
-    return progs
+    # ... and with reductions INLINED where their bounds are affine (cexec qa_shim):
+    # the implementation tags decide much more there
+    return c01.with_inlined_reductions(progs)
 
 
 def main(tier: str, only: list[dict] | None = None) -> int:
